@@ -701,7 +701,8 @@ fn build_default_for_struct(
         #allow_deprecated
         impl #impl_g #trait_ for #this_ty #wheres {
             fn default() -> Self {
-                #value
+                // not `#value` alone: at statement position `match .. {} + x` would end after the block
+                ::core::convert::identity::<Self>(#value)
             }
         }
     })
@@ -770,7 +771,8 @@ fn build_default_for_enum(
         #allow_deprecated
         impl #impl_g #trait_ for #this_ty #wheres {
             fn default() -> Self {
-                #value
+                // not `#value` alone: at statement position `match .. {} + x` would end after the block
+                ::core::convert::identity::<Self>(#value)
             }
         }
     })
@@ -1516,6 +1518,9 @@ impl HelperAttributeForDefault {
             let mut value = args.value;
             while let Expr::Group(g) = value {
                 value = *g.expr;
+            }
+            if let Expr::Let(e) = &value {
+                bail!(e.span(), "expected an expression");
             }
             let value = if value == parse_quote!(_) {
                 None
